@@ -55,6 +55,8 @@ func drawHistory(t *rapid.T, forC12 bool) *core.Case {
 			if !forC12 && rapid.IntRange(0, 9).Draw(t, "cancel") == 0 {
 				a.Op = "cancelquery"
 			}
+			// options of this query only: they must not stick to the engine
+			a.QLookback = rapid.SampledFrom([]int64{0, 0, 0, 0, -1, 1000, 30000, 60000, 300000, 900000}).Draw(t, "qlookback")
 		case k <= 6:
 			a.Op = "append"
 			a.Idx = rapid.IntRange(0, 20).Draw(t, "series")
